@@ -304,6 +304,17 @@ pub mod hexbytes {
 #[derive(Clone, PartialEq, Eq, Hash, Default)]
 pub struct Hex(pub Vec<u8>);
 
+impl Hex {
+    /// Short printable form for messages.
+    pub fn dbg(&self) -> String {
+        if self.0.len() <= 64 {
+            format!("x\"{}\"", hexbytes::to_hex(&self.0))
+        } else {
+            format!("x\"{}...\"({} bytes)", hexbytes::to_hex(&self.0[..48]), self.0.len())
+        }
+    }
+}
+
 impl std::fmt::Debug for Hex {
     fn fmt(&self, f: &mut std::fmt::Formatter<'_>) -> std::fmt::Result {
         write!(f, "x\"{}\"", hexbytes::to_hex(&self.0))
